@@ -21,7 +21,8 @@ def pick(rnd, i):
     return case, make, ""
 
 
-CHECK = ComponentCheck("C14", pick, embedded=(("BasicFifo", "FIFO"), ("serializer", "zipper", "pipeline")))
+CHECK = ComponentCheck("C14", pick, embedded=(("BasicFifo", "FIFO"), ("serializer", "zipper", "pipeline")),
+                       suite=(("BasicFifo", "FIFO"), ("test/lib/test_fifo.py", "test/lib/test_reqres.py", "test/lib/test_pipeline.py", "test/lib/test_connectors.py")))
 shards, run_shard = CHECK.shards, CHECK.run_shard
 RULE = ("[plus a second workload: BasicFifo instances embedded in PipelineBuilder pipelines, Serializer and ArgumentsToResultsZipper, watched passively (vf/passive.py) against the same reference model: readiness, results and state registers every cycle, conditions embedded:*] histories = random hostile call sequences (per-method enable probability re-drawn from {0.1,0.5,0.9,1} every 20-120 cycles) "
         "on FIFO/BasicFifo of depth 1..16 and 1-3 field layouts with unique payload ids, followed by a drain phase; "
